@@ -192,6 +192,7 @@ type vOp struct {
 	start, stop int64
 	cd          Digest
 	name        string
+	hook        bool // link only: fire Resolve(name) from testHookBeforeFinalWrite (between verified copy and rename)
 	s           vScript
 }
 
@@ -204,6 +205,9 @@ func (o vOp) String() string {
 	case "get":
 		return "get " + vHexD(o.d)
 	case "link":
+		if o.hook {
+			return fmt.Sprintf("linkr %s %s", zzverif.Hex([]byte(o.name)), vHexD(o.d))
+		}
 		return fmt.Sprintf("link %s %s", zzverif.Hex([]byte(o.name)), vHexD(o.d))
 	case "unlink":
 		return "unlink " + zzverif.Hex([]byte(o.name))
@@ -253,7 +257,9 @@ func (p *vToks) op() vOp {
 		o.size, o.s = p.int(), p.script()
 	case "get":
 		o.d = vUnhexD(p.next())
-	case "link":
+	case "link", "linkr":
+		o.hook = o.kind == "linkr"
+		o.kind = "link"
 		o.name, o.d = string(zzverif.Unhex(p.next())), vUnhexD(p.next())
 	case "unlink", "resolve":
 		o.name = string(zzverif.Unhex(p.next()))
@@ -288,7 +294,29 @@ func vExec(c *DiskCache, o vOp) (res string, dg *Digest) {
 		}
 		return fmt.Sprintf("entry:%d", e.Size), nil
 	case "link":
-		return vErrClass(c.Link(o.name, o.d)), nil
+		if !o.hook {
+			return vErrClass(c.Link(o.name, o.d)), nil
+		}
+		// a Resolve of the same name "concurrent" with the Link, at the one yield point the code offers: after the
+		// copy's digest verified, before its final write (and so before the rename over the link)
+		hooked, in := "nohook", false
+		var hd *Digest
+		c.testHookBeforeFinalWrite = func(*os.File) {
+			if in {
+				return // the hooked Resolve's own PutBytes
+			}
+			in = true
+			defer func() { in = false }()
+			d, err := c.Resolve(o.name)
+			if err != nil {
+				hooked = vErrClass(err)
+			} else {
+				hooked, hd = "dig:"+vHexD(d), &d
+			}
+		}
+		err := c.Link(o.name, o.d)
+		c.testHookBeforeFinalWrite = nil
+		return vErrClass(err) + "/" + hooked, hd
 	case "unlink":
 		ok, err := c.Unlink(o.name)
 		if err != nil {
@@ -410,10 +438,14 @@ func (h *vHist) confine(step int, o vOp, dg *Digest, before, after map[string]st
 		ok := false
 		switch o.kind {
 		case "link", "unlink":
+			if o.hook && dg != nil && p == "blobs/sha256-"+vHexD(*dg) {
+				ok = true // the hooked Resolve stores the manifest it read as a blob
+				break
+			}
 			rest := strings.TrimPrefix(p, "manifests/")
 			depth := strings.Count(rest, "/") + 1
 			isDir := after[p] == "d" || before[p] == "d"
-			ok = rest != p && ((isDir && depth <= 3) || (!isDir && depth == 4))
+			ok = ok || (rest != p && ((isDir && depth <= 3) || (!isDir && depth == 4)))
 		default:
 			ok = p == allowedBlob
 		}
@@ -535,10 +567,31 @@ func (h *vHist) run(ops []vOp) (results []string, keys map[Digest]bool) {
 			}
 		}
 
+		unlinkExisted := ""
+		if o.kind == "unlink" {
+			unlinkExisted = h.findFold(o.name)
+		}
 		snapBefore := vSnap(h.dir)
 		res, dg := vExec(h.c, o)
 		snapAfter := vSnap(h.dir)
 		results = append(results, res)
+		hookRes := ""
+		if o.kind == "link" && o.hook {
+			parts := strings.SplitN(res, "/", 2)
+			res, hookRes = parts[0], parts[1]
+			h.out.Count("linkr_hook_" + vResClass(hookRes))
+			// every name that resolves, resolves to a digest that an acknowledged or the in-flight Link asked for
+			if strings.HasPrefix(hookRes, "dig:") {
+				got := vUnhexD(hookRes[4:])
+				if got != o.d && !(manBeforeOK && vDigestOf(manBefore) == got) {
+					first := "relink"
+					if !manBeforeOK {
+						first = "first-link"
+					}
+					h.out.L2("resolve-during-link-unasked", h.caseLine, fmt.Sprintf("%s step=%d name=%s resolved=%s asked=%s", first, i, o.name, got.Short(), o.d.Short()))
+				}
+			}
+		}
 		h.out.Count("op_" + o.kind)
 		h.out.Count("res_" + o.kind + "_" + vResClass(res))
 		if strings.HasPrefix(res, "err:other") || strings.HasPrefix(res, "panic:") {
@@ -585,6 +638,22 @@ func (h *vHist) run(ops []vOp) (results []string, keys map[Digest]bool) {
 			}
 		case "unlink":
 			delete(h.linked, h.linkKey(o.name))
+			// after Unlink(n) returns without error, n — in every case spelling — no longer resolves and Links()
+			// does not list it; the bool says whether something was removed
+			if want, nerr := nameToPath(o.name); nerr == nil && !strings.HasPrefix(res, "err:") && !strings.HasPrefix(res, "panic:") {
+				h.out.Count("l2_unlink_checked")
+				if still := h.findFold(o.name); still != "" {
+					h.out.L2("unlink-leaves-link", h.caseLine, fmt.Sprintf("returned=%s existed-before=%q still=%q step=%d name=%s", res, unlinkExisted, still, i, o.name))
+				}
+				if (res == "unlinked:true") != (unlinkExisted != "") {
+					h.out.L2("unlink-wrong-bool", h.caseLine, fmt.Sprintf("returned=%s existed-before=%q step=%d name=%s", res, unlinkExisted, i, o.name))
+				}
+				for l, err := range h.c.Links() {
+					if err == nil && strings.EqualFold(l, pathToName(filepath.ToSlash(want))) {
+						h.out.L2("unlink-leaves-link", h.caseLine, fmt.Sprintf("returned=%s Links-still-lists=%q step=%d name=%s", res, l, i, o.name))
+					}
+				}
+			}
 		case "link":
 			delete(h.linked, h.linkKey(o.name))
 			if res == "ok" {
@@ -656,6 +725,22 @@ func (h *vHist) run(ops []vOp) (results []string, keys map[Digest]bool) {
 		h.checkAcked(i, o)
 	}
 	return results, keys
+}
+
+// findFold: the manifest file (relative path) that name denotes under case folding, found by the driver's own
+// directory listing (independent of manifestPath); "" if none or the name is invalid.
+func (h *vHist) findFold(name string) string {
+	want, err := nameToPath(name)
+	if err != nil {
+		return ""
+	}
+	ms, _ := fs.Glob(os.DirFS(h.dir), "manifests/*/*/*/*")
+	for _, m := range ms {
+		if strings.EqualFold(m, filepath.ToSlash(filepath.Join("manifests", want))) {
+			return m
+		}
+	}
+	return ""
 }
 
 // linkKey identifies the manifest a name denotes (case-insensitively), or "" for an invalid name.
@@ -759,6 +844,14 @@ func vGenHist(r *zzverif.Rng) []vOp {
 			vOp{kind: "resolve", name: name})
 	}
 	switch r.Intn(10) {
+	case 3: // Link under one spelling, Unlink / Resolve under another, re-Link (hooked), Unlink
+		name := zzverif.Pick(r, []string{"h/n/m:t", "Host.x:80/Ns/Model:Tag", "a-b/n/m:t"})
+		other := zzverif.Pick(r, []string{strings.ToUpper(name), strings.ToLower(name), name})
+		a, b := contents[r.Range(1, 3)], contents[r.Range(3, 5)]
+		ops = append(ops, vOp{kind: "put", d: vDigestOf(a), size: int64(len(a)), s: vMkScript(r, a, "exact", false)},
+			vOp{kind: "put", d: vDigestOf(b), size: int64(len(b)), s: vMkScript(r, b, "exact", false)},
+			vOp{kind: "link", name: name, d: vDigestOf(a), hook: r.Bool()}, vOp{kind: "link", name: other, d: vDigestOf(b), hook: r.Bool()},
+			vOp{kind: "unlink", name: other}, vOp{kind: "resolve", name: name}, vOp{kind: "unlink", name: name})
 	case 2: // two stored blobs of one size; Link / Resolve / Unlink through a name aimed at the first one's file
 		a, b := contents[2], contents[3]
 		name := "../blobs/.:sha256-" + vHexD(vDigestOf(a))
@@ -804,7 +897,7 @@ func vGenHist(r *zzverif.Rng) []vOp {
 			ops = append(ops, vOp{kind: "get", d: d})
 		case x < 63:
 			d, _ := pickD()
-			ops = append(ops, vOp{kind: "link", name: pickName(), d: d})
+			ops = append(ops, vOp{kind: "link", name: pickName(), d: d, hook: r.Chance(1, 3)})
 		case x < 70:
 			ops = append(ops, vOp{kind: "unlink", name: pickName()})
 		case x < 88:
@@ -871,10 +964,17 @@ type vCrashCase struct {
 	init    string // absent | - | hex
 	op      vOp
 	content []byte // the true content of the target digest (put / chunk)
+	blob    string // link only: state of the blob file (absent | - | hex)
 }
+
+const vCrashLinkName = "h/n/m:t"
+
+func vCrashLinkPath(dir string) string { return filepath.Join(dir, "manifests", "h", "n", "m", "t") }
 
 func (cc vCrashCase) spec() string {
 	switch cc.op.kind {
+	case "link": // crash link <Link variant> <manifest init> <blob file state> <digest>
+		return fmt.Sprintf("link %d %s %s %s", zzverif.EnvInt("VERIF_C08_FIXED", 0), cc.init, cc.blob, vHexD(cc.op.d))
 	case "put":
 		return fmt.Sprintf("put %s %s %d %s", cc.init, vHexD(cc.op.d), cc.op.size, cc.op.s)
 	case "import":
@@ -898,6 +998,7 @@ var vCrashKinds = map[string]string{ // model effect kind -> syscalls that imple
 	"write":  "write,pwrite64,writev,pwritev",
 	"trunc":  "ftruncate,truncate",
 	"rename": "rename,renameat,renameat2",
+	"unlink": "unlink,unlinkat",
 }
 
 // TestVerifC08Child is the child mode: perform exactly one cache write and record its result.
@@ -917,6 +1018,9 @@ func TestVerifC08Child(t *testing.T) {
 		o.d, o.size, o.s = vUnhexD(p.next()), p.int(), p.script()
 	case "import":
 		o.size, o.s = p.int(), p.script()
+	case "link":
+		_, _ = p.next(), p.next() // manifest init (already consumed: variant), blob state: prepared by the parent
+		o.name, o.d = vCrashLinkName, vUnhexD(p.next())
 	case "chunk":
 		o.d = vUnhexD(os.Getenv("VERIF_C08_DIGEST"))
 		o.size, o.start, o.stop, o.cd, o.s = p.int(), p.int(), p.int(), vUnhexD(p.next()), p.script()
@@ -946,6 +1050,9 @@ func vPrepare(t *testing.T, dir string, d Digest, init string) *DiskCache {
 // vCrashRun executes the case in a child killed at the n-th syscall of the kind; returns "killed"/"survived".
 func vCrashRun(t *testing.T, dir string, cc vCrashCase, c *DiskCache, kind string, n int) string {
 	path := c.GetFile(cc.target())
+	if cc.op.kind == "link" {
+		path = vCrashLinkPath(dir)
+	}
 	sys := vCrashKinds[kind]
 	cmd := exec.Command("strace", "-f", "-qq", "-o", "/dev/null", "-P", path,
 		"-e", "trace="+sys, "-e", fmt.Sprintf("inject=%s:signal=KILL:when=%d", sys, n),
@@ -1071,6 +1178,103 @@ func vRunCrash(t *testing.T, out *zzverif.Out, base string, caseLine string, cc 
 					if err != nil || !bytes.Equal(b, content) {
 						out.L2("crash-retry-not-repaired", line, fmt.Sprintf("err=%v file=%s", err, zzverif.Hex(b)))
 					}
+				}
+			}
+			if outcome == "survived" {
+				break
+			}
+		}
+	}
+}
+
+// vGenCrashLink: one Link(name, d) from a prepared manifest state (first link / replacement of an existing link of
+// another size / of the same size / same content / empty) and blob file state.
+func vGenCrashLink(r *zzverif.Rng) vCrashCase {
+	n := r.Range(1, 14)
+	content := r.Bytes(n)
+	d := vDigestOf(content)
+	cc := vCrashCase{content: content, op: vOp{kind: "link", name: vCrashLinkName, d: d}}
+	switch x := r.Intn(20); {
+	case x < 16:
+		cc.blob = zzverif.Hex(content)
+	case x < 18:
+		cc.blob = zzverif.Hex(r.Bytes(n)) // same size, does not hash to d
+	case x < 19:
+		cc.blob = "-"
+	default:
+		cc.blob = "absent"
+	}
+	switch x := r.Intn(10); {
+	case x < 4:
+		cc.init = "absent" // first link of the name
+	case x < 6:
+		cc.init = zzverif.Hex(r.Bytes(n + r.Range(1, 5)))
+	case x < 8:
+		cc.init = zzverif.Hex(r.Bytes(n))
+	case x < 9:
+		cc.init = zzverif.Hex(content)
+	default:
+		cc.init = "-"
+	}
+	return cc
+}
+
+// vRunCrashLink kills the child inside Link at every syscall on the MANIFEST path (its open for readAndSum, the
+// rename; under an in-place Link also the create, the write, the ftruncate / unlink of the error path).
+func vRunCrashLink(t *testing.T, out *zzverif.Out, base string, caseLine string, cc vCrashCase) {
+	dir := filepath.Join(base, "crash")
+	defer os.RemoveAll(dir)
+	d := cc.op.d
+	out.Count("cases")
+	out.Count("crash_cases_link")
+	mpath := vCrashLinkPath(dir)
+	for _, kind := range []string{"open", "write", "trunc", "rename", "unlink"} {
+		for n := 1; n < 50; n++ {
+			os.RemoveAll(dir)
+			c, err := Open(dir)
+			if err != nil {
+				t.Fatal(err)
+			}
+			if cc.blob != "absent" {
+				os.WriteFile(c.GetFile(d), zzverif.Unhex(cc.blob), 0o666)
+			}
+			if cc.init != "absent" {
+				os.MkdirAll(filepath.Dir(mpath), 0o777)
+				os.WriteFile(mpath, zzverif.Unhex(cc.init), 0o666)
+			}
+			outcome := vCrashRun(t, dir, cc, c, kind, n)
+			st := vState(mpath)
+			op := fmt.Sprintf("crash %s %s %d", cc.spec(), kind, n)
+			line := caseLine + " :: " + op
+			rs := ""
+			if outcome == "survived" {
+				res, _ := os.ReadFile(filepath.Join(dir, "result.txt"))
+				rs = string(res)
+				out.Case(op, "survived "+st+" "+rs)
+				out.Count("crash_runs_survived")
+			} else {
+				out.Case(op, "killed "+st)
+				out.Count("crash_runs_killed_link_" + kind)
+			}
+			// L2 after every cut: if the name resolves, it resolves to a digest that an acknowledged Link (the prepared
+			// manifest) or the in-flight one asked for — and the manifest's bytes hash to it
+			if g, err := os.ReadFile(mpath); err == nil {
+				out.Count("l2_crash_link_resolves_checked")
+				got := vDigestOf(g)
+				if got != d && !(cc.init != "absent" && got == vDigestOf(zzverif.Unhex(cc.init))) {
+					first := "relink"
+					if cc.init == "absent" {
+						first = "first-link"
+					}
+					out.L2("crash-link-unasked-digest", line, fmt.Sprintf("%s outcome=%s manifest=%s resolves-to=%s asked=%s", first, outcome, zzverif.Hex(g), got.Short(), d.Short()))
+				}
+				if rd, err := c.Resolve(vCrashLinkName); err != nil || rd != got {
+					out.L2("resolve-not-hash-of-file", line, fmt.Sprintf("after-crash err=%v", err))
+				}
+			}
+			if outcome == "survived" && rs == "ok" {
+				if g, err := os.ReadFile(mpath); err != nil || vDigestOf(g) != d {
+					out.L2("link-ok-wrong-manifest", line, fmt.Sprintf("crash-phase manifest=%s want=%s", vState(mpath), d.Short()))
 				}
 			}
 			if outcome == "survived" {
@@ -1305,6 +1509,10 @@ func TestVerifC08(t *testing.T) {
 		}
 		for i, n := 0, zzverif.EnvInt("VERIF_NCRASH", 12); i < n; i++ {
 			cs := root.U64()
+			if i%3 == 2 {
+				vRunCrashLink(t, out, base, fmt.Sprintf("crashlink seed=%d", cs), vGenCrashLink(zzverif.NewRng(cs)))
+				continue
+			}
 			cc := vGenCrash(zzverif.NewRng(cs))
 			vRunCrash(t, out, base, fmt.Sprintf("crash seed=%d", cs), cc)
 		}
@@ -1329,6 +1537,8 @@ func vReplay(t *testing.T, out *zzverif.Out, base, line string) {
 		vRunConc(t, out, base, fmt.Sprintf("conc seed=%d", cs), &cc, r)
 	case "crash":
 		vRunCrash(t, out, base, fmt.Sprintf("crash seed=%d", cs), vGenCrash(zzverif.NewRng(cs)))
+	case "crashlink":
+		vRunCrashLink(t, out, base, fmt.Sprintf("crashlink seed=%d", cs), vGenCrashLink(zzverif.NewRng(cs)))
 	default:
 		t.Fatalf("cannot replay %q", line)
 	}
